@@ -320,6 +320,10 @@ pub struct ServerSide<S: Service> {
     resp_addr: BTreeMap<u64, BTreeMap<usize, u64>>,
     pub counts: BTreeMap<String, u64>,
     pub poisoned: bool,
+    /// sequential runs record ActiveRequest::is_connected() right after receive() as part of the ReceiveRequest
+    /// record (v = 0 / 1); in a concurrent execution that is a second call with its own place in the history, the
+    /// record then says v = 2 (not observed) and the program observes it with an IsConnectedA step
+    pub conn_in_receive: bool,
 }
 
 pub struct World<S: Service> {
@@ -638,6 +642,7 @@ impl<S: Service> ServerSide<S> {
             resp_addr: BTreeMap::new(),
             counts: BTreeMap::new(),
             poisoned: false,
+            conn_in_receive: true,
         }
     }
 
@@ -781,7 +786,7 @@ impl<S: Service> ServerSide<S> {
                         rec.ch = parse_field(&hd, "channel_id:");
                         rec.rid = parse_field(&hd, "request_id:");
                         rec.ok = (m.intact() && m.kind == 1) as u64;
-                        rec.v = ar.is_connected() as u64;
+                        rec.v = if self.conn_in_receive { ar.is_connected() as u64 } else { 2 };
                         if self.areq.contains_key(&(st.s, m.c, m.n)) {
                             // the same request delivered twice to one server: keep both alive, flag it
                             rec.r = "duplicate".into();
@@ -930,6 +935,11 @@ side_exec!(ServerSide<S>);
 
 impl<S: Service> World<S> {
     pub fn new(cfg: &Cfg, config: &Config, service_name: &str) -> Result<World<S>, String> {
+        Self::new_opt(cfg, config, service_name, true)
+    }
+
+    /// probe = false: the chunk counts are not read (a client and a server less to create; the caller knows them)
+    pub fn new_opt(cfg: &Cfg, config: &Config, service_name: &str, probe: bool) -> Result<World<S>, String> {
         let node = NodeBuilder::new().config(config).create::<S>().map_err(|e| format!("node: {e:?}"))?;
         let name = ServiceName::new(service_name).map_err(|e| format!("name: {e:?}"))?;
         let svc = node
@@ -958,7 +968,7 @@ impl<S: Service> World<S> {
         };
         // parameter extraction (DESIGN.md 3.3): number of chunks of a client / server data segment as
         // published by the running code in the dynamic config
-        {
+        if probe {
             let c = make_client(&w.svc).map_err(|e| format!("probe client: {e}"))?;
             let s = make_server(&w.svc, cfg).map_err(|e| format!("probe server: {e}"))?;
             let (cid, sid) = (c.id(), s.id());
@@ -1063,6 +1073,27 @@ impl<S: Service> World<S> {
             *m.entry(k.clone()).or_insert(0) += v;
         }
         m
+    }
+
+    /// Drops every object of both sides in dependency order but keeps node and service: the next execution starts
+    /// with fresh ports on the same service.  false: the teardown panicked.
+    pub fn recycle(&mut self) -> bool {
+        let cs = std::mem::replace(&mut self.cs, ClientSide::new(&self.cfg));
+        let ss = std::mem::replace(&mut self.ss, ServerSide::new(&self.cfg));
+        if cs.poisoned || ss.poisoned {
+            std::mem::forget(cs);
+            std::mem::forget(ss);
+            return false;
+        }
+        catch_unwind(AssertUnwindSafe(move || {
+            let (mut cs, mut ss) = (cs, ss);
+            ss.clear_objects();
+            cs.clear();
+            ss.servers.clear();
+            drop(cs);
+            drop(ss);
+        }))
+        .is_ok()
     }
 
     /// Orderly teardown in dependency order (the end-of-run observation is the leftover scan in main).
